@@ -38,7 +38,7 @@ func (x *rx) helperWith(pred func(*ast.CallExpr) bool) *region {
 	fn := x.fn["doFetch"]
 	var out *region
 	for _, call := range x.calls(fn.Decl.Body, func(*ast.CallExpr) bool { return true }) {
-		h := x.c.FnOf(core.CalleeFunc(x.info, call))
+		h := x.c.FnOf(c07.CalleeF(x.info, call))
 		if h == nil || h.Decl.Body == nil || h.Pkg != fn.Pkg || h.Obj == fn.Obj || len(x.calls(h.Decl.Body, pred)) == 0 {
 			continue
 		}
@@ -47,7 +47,7 @@ func (x *rx) helperWith(pred func(*ast.CallExpr) bool) *region {
 		for _, f := range h.Decl.Type.Params.List {
 			for _, nm := range f.Names {
 				if i < len(call.Args) {
-					r.bind[x.info.Defs[nm]] = core.ObjOf(x.info, call.Args[i])
+					r.bind[x.info.Defs[nm]] = c07.Obj(x.info, call.Args[i])
 				}
 				i++
 			}
@@ -72,6 +72,59 @@ func loopOf(body, n ast.Node) *ast.RangeStmt {
 		}
 	}
 	return r
+}
+
+// iter is a loop that visits every element of a slice once, in order: `for i, k := range s` or
+// `for i := 0; i < len(s); i++` (elements written s[i]).
+type iter struct {
+	stmt  ast.Stmt
+	body  *ast.BlockStmt
+	slice ast.Expr     // the slice operand
+	idx   types.Object // index variable (nil: none)
+	val   types.Object // element variable of a range loop (nil: elements are written slice[idx])
+}
+
+func (x *rx) iterOf(body, n ast.Node) *iter {
+	var it *iter
+	for _, a := range core.PathTo(body, n) {
+		switch l := a.(type) {
+		case *ast.RangeStmt:
+			it = &iter{stmt: l, body: l.Body, slice: l.X}
+			if l.Key != nil {
+				it.idx = c07.Obj(x.info, l.Key)
+			}
+			if l.Value != nil {
+				it.val = c07.Obj(x.info, l.Value)
+			}
+		case *ast.ForStmt:
+			if c07.OnceLoop(l) {
+				continue
+			}
+			cnt := c07.LoopCount(x.info, l)
+			call, ok := cnt.(*ast.CallExpr)
+			if cnt == nil || !ok || len(call.Args) != 1 {
+				it = nil
+				continue
+			}
+			if id, isID := call.Fun.(*ast.Ident); !isID || id.Name != "len" {
+				it = nil
+				continue
+			}
+			b := pat.Expr("_i < _n").Match(x.info, l.Cond, nil)
+			it = &iter{stmt: l, body: l.Body, slice: call.Args[0], idx: c07.Obj(x.info, b["_i"].(ast.Expr))}
+		}
+	}
+	return it
+}
+
+// elem: e is the element of the iteration (the range value, or slice[idx], possibly through a local).
+func (x *rx) elem(it *iter, e ast.Expr) bool {
+	e = c07.Through(x.info, e)
+	if it.val != nil && c07.Obj(x.info, e) == it.val {
+		return true
+	}
+	ix, ok := e.(*ast.IndexExpr)
+	return ok && it.idx != nil && c07.Obj(x.info, ix.Index) == it.idx && c07.Obj(x.info, ix.X) != nil && c07.Obj(x.info, ix.X) == c07.Obj(x.info, it.slice)
 }
 
 func (x *rx) isDo(n ast.Node) bool {
@@ -108,23 +161,23 @@ func (x *rx) pipelines(fn *core.Fn, g *cfgq.Graph, scans []cfgq.Point, isScan fu
 		x.c.Undecidedf("R4.pipeline", "doFetch", fn.Decl.Pos(), "expected one Send(\"DUMP\"), one Send(\"PTTL\") (in doFetch or one helper) and one send on keyChan; found %d/%d", len(dumpS), len(pttlS))
 		return
 	}
-	ld, lp, lk := loopOf(rbody, dumpS[0].Node()), loopOf(rbody, pttlS[0].Node()), loopOf(body, keyChanSend)
+	ld, lp, lk := x.iterOf(rbody, dumpS[0].Node()), x.iterOf(rbody, pttlS[0].Node()), x.iterOf(body, keyChanSend)
 	if ld == nil || lp == nil || lk == nil {
 		x.c.Undecidedf("R4.pipeline", "doFetch", fn.Decl.Pos(), "DUMP/PTTL/keyChan sends are not each inside a range loop")
 		return
 	}
-	keys := core.ObjOf(x.info, lk.X)
-	kd, kp := reg.arg(core.ObjOf(x.info, ld.X)), reg.arg(core.ObjOf(x.info, lp.X))
+	keys := c07.Obj(x.info, lk.slice)
+	kd, kp := reg.arg(c07.Obj(x.info, ld.slice)), reg.arg(c07.Obj(x.info, lp.slice))
 	if keys == nil || kd == nil || kp == nil {
-		x.c.Undecidedf("R4.align", "doFetch/same-slice", lk.Pos(), "the slices iterated by the pipelines / the KeyNode loop are not plain variables (or not passed as such to the helper)")
+		x.c.Undecidedf("R4.align", "doFetch/same-slice", lk.stmt.Pos(), "the slices iterated by the pipelines / the KeyNode loop are not plain variables (or not passed as such to the helper)")
 	} else {
-		x.c.Check("R4.align", "doFetch/same-slice", lk.Pos(), kd == keys && kp == keys,
+		x.c.Check("R4.align", "doFetch/same-slice", lk.stmt.Pos(), kd == keys && kp == keys,
 			"the DUMP pipeline, the PTTL pipeline and the loop that builds the KeyNodes must iterate the same key slice: otherwise reply i of one pipeline belongs to another key than keys[i] and keys receive foreign values/TTLs")
 	}
-	argIsVal := func(p cfgq.Point, rs *ast.RangeStmt, command string) bool {
+	argIsVal := func(p cfgq.Point, it *iter, command string) bool {
 		for _, call := range cfgq.ExecCalls(p.Node()) {
 			if _, cm, recv := cmd(x.info, call); cm == command {
-				return len(call.Args) == 2 && rs.Value != nil && core.ObjOf(x.info, call.Args[1]) == core.ObjOf(x.info, rs.Value) && x.field(recv) == "sourceClient"
+				return len(call.Args) == 2 && x.elem(it, call.Args[1]) && x.field(recv) == "sourceClient"
 			}
 		}
 		return false
@@ -135,7 +188,7 @@ func (x *rx) pipelines(fn *core.Fn, g *cfgq.Graph, scans []cfgq.Point, isScan fu
 	if w == nil {
 		w = rg.Path(cfgq.Query{From: pttlS[0], After: true, Avoid: x.isDo, Target: x.cmdNode("Send", "DUMP")})
 	}
-	x.check("R4.pipeline", "doFetch/collect-between", ld.Pos(), w, "the replies of one pipeline must be collected (Do(\"\")) before the other pipeline is sent: otherwise DUMP and PTTL replies are mixed in one reply array and values/TTLs are attributed to the wrong keys")
+	x.check("R4.pipeline", "doFetch/collect-between", ld.stmt.Pos(), w, "the replies of one pipeline must be collected (Do(\"\")) before the other pipeline is sent: otherwise DUMP and PTTL replies are mixed in one reply array and values/TTLs are attributed to the wrong keys")
 	// the KeyNode literal
 	cl, _ := ast.Unparen(keyChanSend.Value).(*ast.UnaryExpr)
 	var lit *ast.CompositeLit
@@ -155,7 +208,7 @@ func (x *rx) pipelines(fn *core.Fn, g *cfgq.Graph, scans []cfgq.Point, isScan fu
 			fields[st.Field(i).Name()] = el
 		}
 	}
-	idx := core.ObjOf(x.info, lk.Key)
+	idx := lk.idx
 	// trace: which pipeline filled the slice variable (of the region)?
 	trace := func(slice types.Object, conv string) string {
 		for _, p := range rg.Points(func(n ast.Node) bool { as, _ := c07.AssignsTo(x.info, n, slice); return as != nil }) {
@@ -167,10 +220,10 @@ func (x *rx) pipelines(fn *core.Fn, g *cfgq.Graph, scans []cfgq.Point, isScan fu
 			if !ok {
 				continue
 			}
-			if f := core.CalleeFunc(x.info, call); f == nil || f.Name() != conv || len(call.Args) != 2 {
+			if f := c07.CalleeF(x.info, call); f == nil || f.Name() != conv || len(call.Args) != 2 {
 				continue
 			}
-			reply := core.ObjOf(x.info, call.Args[0])
+			reply := c07.Obj(x.info, call.Args[0])
 			isDef := func(n ast.Node) bool { a, _ := c07.AssignsTo(x.info, n, reply); return a != nil }
 			for _, dp := range rg.Points(func(n ast.Node) bool { return isDef(n) && x.isDo(n) }) {
 				if rg.Path(cfgq.Query{From: dp, After: true, Avoid: isDef, Target: c07.IsNode(p.Node())}) == nil {
@@ -189,11 +242,11 @@ func (x *rx) pipelines(fn *core.Fn, g *cfgq.Graph, scans []cfgq.Point, isScan fu
 		return "?"
 	}
 	source := func(e ast.Expr, conv string) (string, bool) {
-		ix, ok := ast.Unparen(e).(*ast.IndexExpr)
-		if !ok || idx == nil || core.ObjOf(x.info, ix.Index) != idx {
+		ix, ok := c07.Through(x.info, e).(*ast.IndexExpr)
+		if !ok || idx == nil || c07.Obj(x.info, ix.Index) != idx {
 			return "", false
 		}
-		slice := core.ObjOf(x.info, ix.X)
+		slice := c07.Obj(x.info, ix.X)
 		if reg.call == nil {
 			return trace(slice, conv), true
 		}
@@ -201,7 +254,7 @@ func (x *rx) pipelines(fn *core.Fn, g *cfgq.Graph, scans []cfgq.Point, isScan fu
 		j := -1
 		if reg.as != nil {
 			for i, l := range reg.as.Lhs {
-				if core.ObjOf(x.info, l) == slice {
+				if c07.Obj(x.info, l) == slice {
 					j = i
 				}
 			}
@@ -216,7 +269,7 @@ func (x *rx) pipelines(fn *core.Fn, g *cfgq.Graph, scans []cfgq.Point, isScan fu
 				return true
 			}
 			t := "?"
-			if o := core.ObjOf(x.info, ret.Results[j]); o != nil {
+			if o := c07.Obj(x.info, ret.Results[j]); o != nil {
 				t = trace(o, conv)
 			}
 			if got != "" && got != t {
@@ -230,7 +283,7 @@ func (x *rx) pipelines(fn *core.Fn, g *cfgq.Graph, scans []cfgq.Point, isScan fu
 		}
 		return got, true
 	}
-	x.c.Check("R4.align", "doFetch/keynode-key", lit.Pos(), fields["key"] != nil && lk.Value != nil && core.ObjOf(x.info, fields["key"]) == core.ObjOf(x.info, lk.Value), "KeyNode.key must be the key of this iteration")
+	x.c.Check("R4.align", "doFetch/keynode-key", lit.Pos(), fields["key"] != nil && x.elem(lk, fields["key"]), "KeyNode.key must be the key of this iteration")
 	for _, f := range []struct{ field, conv, pipe string }{{"value", "Strings", "DUMP"}, {"pttl", "Int64s", "PTTL"}} {
 		src, sameIdx := "", false
 		if fields[f.field] != nil {
@@ -247,7 +300,7 @@ func (x *rx) pipelines(fn *core.Fn, g *cfgq.Graph, scans []cfgq.Point, isScan fu
 	}
 	x.c.Check("R3.db", "doFetch/keynode-db", lit.Pos(), fields["db"] != nil && isDB(fields["db"]), "KeyNode.db must be the database being fetched")
 	// R4.keys: the slice is not modified between the pipelines (nor, with a helper, before the KeyNodes are built)
-	rkeys := core.ObjOf(x.info, ld.X)
+	rkeys := c07.Obj(x.info, ld.slice)
 	w = rg.Path(cfgq.Query{From: dumpS[0], After: true, Avoid: isScan, Target: func(n ast.Node) bool { a, _ := c07.AssignsTo(x.info, n, rkeys); return a != nil }})
 	if w == nil && reg.call != nil {
 		if cp, ok := g.Find(reg.call); ok {
@@ -257,7 +310,7 @@ func (x *rx) pipelines(fn *core.Fn, g *cfgq.Graph, scans []cfgq.Point, isScan fu
 			}})
 		}
 	}
-	x.check("R4.keys", "doFetch/stable-between-pipelines", ld.Pos(), w, "the key slice is modified after DUMP was pipelined for it: indexes of dumps/pttls no longer refer to the same keys")
+	x.check("R4.keys", "doFetch/stable-between-pipelines", ld.stmt.Pos(), w, "the key slice is modified after DUMP was pipelined for it: indexes of dumps/pttls no longer refer to the same keys")
 	x.filterRules(fn, g, scans, keys)
 }
 
@@ -269,7 +322,7 @@ func (x *rx) filterRules(fn *core.Fn, g *cfgq.Graph, scans []cfgq.Point, keys ty
 		x.c.Undecidedf("R4.keys", "doFetch/filter", fn.Decl.Pos(), "filter.FilterKey not resolved")
 		return
 	}
-	isFilter := func(call *ast.CallExpr) bool { return core.CalleeFunc(x.info, call) == filterF.Obj }
+	isFilter := func(call *ast.CallExpr) bool { return c07.CalleeF(x.info, call) == filterF.Obj }
 	reg := &region{fn: fn, g: g}
 	if len(x.calls(body, isFilter)) == 0 {
 		if h := x.helperWith(isFilter); h != nil {
@@ -283,26 +336,26 @@ func (x *rx) filterRules(fn *core.Fn, g *cfgq.Graph, scans []cfgq.Point, keys ty
 	}
 	var raw types.Object
 	if as, ok := scans[0].Node().(*ast.AssignStmt); ok {
-		raw = core.ObjOf(x.info, as.Lhs[0])
+		raw = c07.Obj(x.info, as.Lhs[0])
 	}
-	if fl == nil || raw == nil || reg.arg(core.ObjOf(x.info, fl.X)) != raw {
+	if fl == nil || raw == nil || reg.arg(c07.Obj(x.info, fl.X)) != raw {
 		x.c.Undecidedf("R4.keys", "doFetch/filter", fn.Decl.Pos(), "no loop over the scanned keys applying FilterKey (in doFetch or one helper given the scanned page)")
 		return
 	}
 	kept := keys
 	if reg.call != nil { // the helper's result must be what the pipelines iterate; inside, the kept slice is the local that is returned
-		if reg.as == nil || len(reg.as.Lhs) != 1 || core.ObjOf(x.info, reg.as.Lhs[0]) != keys {
+		if reg.as == nil || len(reg.as.Lhs) != 1 || c07.Obj(x.info, reg.as.Lhs[0]) != keys {
 			x.c.Undecidedf("R4.keys", "doFetch/filter", reg.call.Pos(), "the result of the filtering helper is not bound to the slice the pipelines iterate")
 			return
 		}
 		kept = nil
 		okRet := true
-		param := core.ObjOf(x.info, fl.X)
+		param := c07.Obj(x.info, fl.X)
 		core.Inspect(rbody, func(n ast.Node) bool {
 			if ret, ok := n.(*ast.ReturnStmt); ok {
 				o := types.Object(nil)
 				if len(ret.Results) == 1 {
-					o = core.ObjOf(x.info, ret.Results[0])
+					o = c07.Obj(x.info, ret.Results[0])
 				}
 				switch {
 				case o == nil:
@@ -322,10 +375,10 @@ func (x *rx) filterRules(fn *core.Fn, g *cfgq.Graph, scans []cfgq.Point, keys ty
 		}
 	}
 	fh, fb := c07.RangeBlocks(rg, fl)
-	kv := core.ObjOf(x.info, fl.Value)
+	kv := c07.Obj(x.info, fl.Value)
 	isKeep := func(n ast.Node) bool {
 		b := pat.Stmt("_k = append(_k, _v)").Match(x.info, n, nil)
-		return b != nil && core.ObjOf(x.info, b["_k"].(ast.Expr)) == kept && core.ObjOf(x.info, b["_v"].(ast.Expr)) == kv
+		return b != nil && c07.Obj(x.info, b["_k"].(ast.Expr)) == kept && c07.Obj(x.info, b["_v"].(ast.Expr)) == kv
 	}
 	filtered := func(val bool) func(*cfg.Block, int) bool {
 		return func(b *cfg.Block, s int) bool {
@@ -338,7 +391,7 @@ func (x *rx) filterRules(fn *core.Fn, g *cfgq.Graph, scans []cfgq.Point, keys ty
 					}
 				}
 				call, ok := ast.Unparen(e).(*ast.CallExpr)
-				return ok && isFilter(call) && len(call.Args) == 1 && core.ObjOf(x.info, call.Args[0]) == kv && v == val
+				return ok && isFilter(call) && len(call.Args) == 1 && c07.Obj(x.info, call.Args[0]) == kv && v == val
 			})
 		}
 	}
